@@ -119,6 +119,15 @@ def handle (j : Json) : IO Unit := do
     let evs := (jarr (jget impl "events")).map parseEv
     let crashed := jstr (jget impl "panic") != "" || jbool (jget impl "timeout") || jstr (jget impl "err") != ""
     let want := run active lines
+    -- a body that is no completion stream at all is refused (error, nothing written): outside the property
+    match transform activeEmptyStream active (jbool (jget j "saw_done")) lines with
+    | none =>
+      let refused := jstr (jget impl "err") != "" && evs.isEmpty && jstr (jget impl "panic") == "" && !(jbool (jget impl "timeout"))
+      emit case refused true "stream.not-a-completion-stream" ""
+        (if refused then "" else s!"a body without any chunk or [DONE] was not refused: err '{jstr (jget impl "err")}', {evs.length} events")
+        (Json.mkObj [("refused", toJson true)])
+      return
+    | some _ => pure ()
     let agreeS := !crashed && evs == want
     -- spec clauses on the implementation's events
     let mut fails : List (String × String) := []
